@@ -16,6 +16,7 @@ import (
 	"os"
 	"regexp"
 	"runtime"
+	"runtime/debug"
 	"runtime/pprof"
 	"sort"
 	"strings"
@@ -55,6 +56,12 @@ type jobResult struct {
 	Rows      int       `json:"rows"`
 	Accepted  int       `json:"accepted"`
 	Micros    int64     `json:"us"` // wall time of the job inside the worker (diagnostics only, never judged)
+	// FlushPanic: the explicit end-of-sequence flush (stand-in for the background age flush / shutdown)
+	// panicked on the harness goroutine and the panic was caught there instead of letting it kill this
+	// worker ("<kind>|<site>"). Production has no recover on that path, so this IS a process death;
+	// every class found this way is re-run by the parent with VERIF_C04_NORECOVER=1 (real death).
+	FlushPanic string `json:"flush_panic,omitempty"`
+	FlushTrace string `json:"flush_trace,omitempty"`
 }
 
 func bufSize(mode string) int {
@@ -237,9 +244,22 @@ func runJob(A []atom, j job, tail *errTail) jobResult {
 	}
 	// Stand-in for the age-triggered background flush (periodicFlush -> flushAgedBuffers ->
 	// flushBufferLocked, no recover there either) and the shutdown flush.
-	ferr := s.buf.FlushAll(context.Background())
-	s.buf.Close()
-	_ = ferr
+	guarded := func(f func()) {
+		if os.Getenv("VERIF_C04_NORECOVER") == "1" {
+			f()
+			return
+		}
+		defer func() {
+			if r := recover(); r != nil && res.FlushPanic == "" {
+				tr := fmt.Sprintf("panic: %v\n\ngoroutine 1 [running]:\n%s", r, debug.Stack())
+				k, site := parseTrace(tr)
+				res.FlushPanic, res.FlushTrace = k+"|"+site, tr
+			}
+		}()
+		f()
+	}
+	guarded(func() { s.buf.FlushAll(context.Background()) })
+	guarded(func() { s.buf.Close() })
 	// Barrier: a flush goroutine that panicked has already run its deferred wg.Done(), so Close() can
 	// return while the runtime is still busy killing the process. A stop-the-world request cannot
 	// complete once the dying goroutine froze the world, so this goroutine parks here until exit(2).
@@ -256,6 +276,13 @@ func runJob(A []atom, j job, tail *errTail) jobResult {
 		time.Sleep(time.Millisecond)
 	}
 
+	if res.FlushPanic != "" {
+		if len(res.FlushTrace) > 3000 {
+			res.FlushTrace = res.FlushTrace[:3000]
+		}
+		res.Outcome = "flush-panic:" + res.FlushPanic
+		return res
+	}
 	// ---- oracle over the store ----
 	byPos := make([][]hx.Row, n)
 	unknown := 0
